@@ -12,12 +12,15 @@ CLAIMS = {
   text="Refinement theorems in Lean 4 over the model regenerated from today's source: for every compute module and EVERY coordinate-system key "
        "(2/6/12 unary, 4/36/144 binary, x12 Euler orders) the value computed by the variant found under that key denotes Spec.op of the operands' "
        "denotations, for all reals in the representable domain (Canon). Cross-system equal/not_equal are covered structurally (C12 theorems). "
-       "Method-level pass-through rules by the glue model + exact symbolic correspondence. Known findings (t<0): to_beta3, Et.",
+       "Method-level pass-through rules by the glue model + exact symbolic correspondence. REGULARITY: for every module and key the generated predicate evalDom "
+       "(no division by zero, sqrt/log/arccos/tan inside their domains) is proved on the same hypotheses (Dom/*.lean) and paired with the refinement statement in "
+       "Props/Regular.lean (82 theorems regular_<module>), so no statement relies on Lean's totalised x/0 = 0. Known findings: to_beta3 and Et for t<0, Mt2 clamp for spacelike tau storage.",
   note=TB + "float64 rounding and singular strata (zero vector, on-axis theta/eta, t=0) are not modelled; every run also sweeps the laws on the real code at 50 digits (exploration).",
   technique="Lean 4 refinement proofs over translator-generated model; translation validation; mp law sweep as failing-input search"),
  "C02": dict(category="proof", design="4/C02",
   text="The same refinement theorems read at the Cartesian key, plus the Euler/axis/quaternion rotation identities (Props/C10) and boost identities (Props/C09): "
-       "each operation equals its documented definition over the reals, for all operands in the domain of the definition. The float64 clause is NOT proved "
+       "each operation equals its documented definition over the reals, for all operands in the domain of the definition, and on that domain the code is REGULAR "
+       "(generated Dom predicates, dom_<module> for all 82 modules and all keys, combined as regular_<module> in Props/Regular.lean). The float64 clause is NOT proved "
        "(no formal float semantics); it is sampled by the C03 value lattice and the 50-digit law sweep.",
   note=TB + "the float64 half of the property is exploration only.",
   technique="Lean 4 proofs (Spec refinement) over translator-generated model; mp reference model as failing-input search"),
